@@ -1856,6 +1856,17 @@ int EGLPNUM_TYPENAME_ILLlib_delcols (
 	qslp->ncols -= num;
 	qslp->nstruct -= num;
 
+	/* SOS sets (kept only to write them out again) name their members by
+	 * structural index and nothing renumbers them: they are given up rather
+	 * than left pointing at other, or no, columns */
+	if (qslp->sos.matcols > 0 || qslp->is_sos_mem)
+	{
+		EGLPNUM_TYPENAME_ILLmatrix_free (&qslp->sos);
+		EGLPNUM_TYPENAME_ILLmatrix_init (&qslp->sos);
+		ILL_IFFREE(qslp->is_sos_mem);
+		ILL_IFFREE(qslp->sos_type);
+	}
+
 	/* if the base is OK, we MUST load the status variables again */
 	if(bok)
 	{
